@@ -45,7 +45,13 @@ const STAKES_1: [u128; 3] = [1, 7, 700_800_000];
 const STAKES_2: [u128; 2] = [3, 1_000_003];
 
 fn accrual(len: usize, mode: Mode, strict: bool) {
-    let mut w = Stk::new(Cfg::default());
+    accrual_cfg(len, mode, strict, Cfg::default())
+}
+
+fn accrual_cfg(len: usize, mode: Mode, strict: bool, cfg: Cfg) {
+    let non_default = cfg.apr != Cfg::default().apr;
+    let mut w = Stk::new(cfg);
+    w.check_shown_by_query = non_default;
     w.track_rewards = true;
     let mut evs = events();
     match mode {
@@ -209,6 +215,14 @@ pub fn scenarios(tier: &str) -> Vec<Scenario> {
     }));
     v.push(Scenario::new("accrual_two_delegators_symbolic_time_len2", &["withdraw_ok", "end"], || {
         accrual(2, Mode::TwoConcreteStakesSymbolicTime, false)
+    }));
+    v.push(Scenario::new("accrual_two_delegators_rates_other_than_the_default", &["withdraw_ok", "end"], || {
+        // found missing by seed C15e: every configured number differs from StakingInfo::default()
+        let mut cfg = Cfg::default();
+        cfg.apr = [E18 / 4, E18, 1][choose(3)];
+        cfg.comm = [E18 / 5, 0];
+        cfg.unbonding = 7;
+        accrual_cfg(1, Mode::TwoConcreteStakesSymbolicTime, false, cfg)
     }));
     v.push(Scenario::new("split_independence", &["end"], || split(true)));
     v.push(Scenario::new("split_independence_subsecond_block_times", &["end"], split_subsecond));
